@@ -156,6 +156,7 @@ class Ctx:
         self.fresh = itertools.count(1)
         self.base_assumptions = []
         self.memo_hits = 0
+        self.enum_decls = {}
         self.extern_consts = {"std::time::SystemTime::UNIX_EPOCH": ("opaque", "UNIX_EPOCH"), "std::time::UNIX_EPOCH": ("opaque", "UNIX_EPOCH")}
 
     # -- solver helpers ---------------------------------------------------------------------------------------
@@ -183,6 +184,19 @@ class Ctx:
             return True
         return r == z3.sat
 
+    def enum_discriminant(self, qualified):
+        """Discriminant of `Type::Variant`: from the MIR's own `Type::Variant::{constant#0}` (explicit discriminants) or from the
+        declaration order recorded in self.enum_decls (filled by the spec from the crate's sources)."""
+        ent = self.funcs.get(qualified + "::{constant#0}")
+        if isinstance(ent, tuple) and ent[0] == "constval":
+            return ent[1][2]
+        if "::" in qualified:
+            ty, var = qualified.rsplit("::", 1)
+            decl = self.enum_decls.get(ty)
+            if decl and var in decl:
+                return decl.index(var)
+        return None
+
     def mkint(self, name, ty):
         if self.mode == "bv":
             return z3.BitVec(name, INT_BITS[ty])
@@ -203,6 +217,18 @@ class Ctx:
         plain = re.sub(r"::<[^<>]*(?:<[^<>]*>[^<>]*)*>", "", name)
         if plain in self.funcs and not isinstance(self.funcs[plain], tuple):
             return self.funcs[plain]
+        mt = re.fullmatch(r"<&?(?:mut )?([\w:]+?)(?:<.*>)? as [\w:]+(?:<.*>)?>::(\w+)", name)
+        if mt:
+            ty, meth = mt.group(1).split("::")[-1], mt.group(2)
+            cands = []
+            for k, f in self.funcs.items():
+                if isinstance(f, tuple) or not k.endswith("::" + meth) or "{closure" in k:
+                    continue
+                sig = " ".join(t for _, t in f.args)
+                if re.search(r"\b%s\b" % re.escape(ty), sig):
+                    cands.append(k)
+            if len(cands) == 1:
+                return self.funcs[cands[0]]
         parts = plain.split("::")
         if len(parts) >= 2:
             ty, meth = parts[-2], parts[-1]
@@ -705,6 +731,9 @@ class Exec:
                     return name
                 if name in DISCR:
                     return DISCR[name]
+                d = self.ctx.enum_discriminant(name)
+                if d is not None:
+                    return d
                 raise ExecError("unknown discriminant for variant " + str(name))
             if hasattr(v, "discriminant"):
                 return v.discriminant()
@@ -749,7 +778,9 @@ class Exec:
         if k == "closure":
             return ("closure", rv[1], tuple(self.operand(st, o) for _, o in rv[2]))
         if k == "variant":
-            return ("enum", rv[2], tuple(self.operand(st, o) for o in rv[3]))
+            base = re.sub(r"<.*$", "", rv[1].split("::<")[0]).split("::")[-1].strip()
+            name = rv[2] if base in ("Option", "Result", "ControlFlow", "") else base + "::" + rv[2]
+            return ("enum", name, tuple(self.operand(st, o) for o in rv[3]))
         raise ExecError("rvalue " + str(rv[0]))
 
     def freeze_proj(self, st, proj):
@@ -970,6 +1001,18 @@ class Exec:
                 cache[ctype] = f
                 return f
         raise ExecError("no MIR body for closure " + ctype)
+
+    def call_inplace(self, st, func, args):
+        """Inline `func` with heap effects, requiring a single non-panicking outcome; the caller's state is updated in place."""
+        ensure_parsed(func)
+        heap = self.copy_heap(st.heap)
+        heap[st.frame] = dict(st.locals)
+        sub = self.run_function(func, args, heap=heap, pc=st.pc)
+        rets = [r for r in sub.rets if r[0] is not False]
+        if len(rets) != 1 or sub.panics:
+            raise ExecError("call_inplace: %s has %d outcomes / %d panics" % (func.name, len(rets), len(sub.panics)))
+        self.adopt_heap(st, rets[0][3])
+        return rets[0][1]
 
     def call_value(self, st, func, args):
         """Inline `func` and merge its outcomes into ONE value (ite chain); returns (value, panic_condition)."""
